@@ -145,6 +145,8 @@ def run(ctx, model=None):
             check_case(ctx, gen.with_empty_action(gen.stopping_game(rng), rng), model)
         with impl.forced_debug():
             check_case(ctx, gen.all_dead_game(rng), model)
+    import analysis as _an0
+    _an0.optimized_interpreter(ctx, [gen.layered_tie_game(rng) for _ in range(6)] + [tie_game(rng) for _ in range(6)], "exact-optimal-set", fields=[1])
     N = 300 if ctx.quick() else 30000
     for k in range(N):
         r = k % 6
